@@ -73,7 +73,7 @@ package leanhelix
 //@ dep leanhelixterm.NewLeanHelixTerm
 //@   params ctx log config st electionTrigger onCommit prevBlock prevBlockProofBytes canBeFirstLeader
 //@   modifies state.State.view, M:S_state_HeightView:Int
-//@   ensures result != nil
+//@   ensures result != nil && TermHeightOf(result) == st.height
 
 //@ dep (*leanhelixterm.LeanHelixTerm).Dispose
 //@   params self
@@ -88,6 +88,7 @@ package leanhelix
 // the filter replays cached messages into the new term; a replayed message may commit the new height, which re-enters
 // onNewConsensusRound (nested round: height, callbacks and term move on)
 //@ func (*WorkerLoop).onNewConsensusRound
+//@   inv [O17.the-installed-term-is-the-term-of-the-current-height] (lh.filter.consensusMessagesHandler != nil ==> TermHeightOf(dyn(lh.filter.consensusMessagesHandler, *leanhelixterm.LeanHelixTerm)) == lh.state.height)
 //@   props C13 C14
 //@   requires lh.state != nil && lh.filter != nil && lh.filter.state == lh.state && lh.filter.futureCache != nil && lh.state.Contexts != nil
 //@   requires lastRoundHeight <= lh.state.height && lastCommitHeight <= lh.state.height && ndelivered >= 0
@@ -102,6 +103,7 @@ package leanhelix
 //@   ensures [frame] lh.state == old(lh.state) && lh.filter == old(lh.filter) && lh.filter.state == lh.state && lh.filter.futureCache == old(lh.filter.futureCache) && lh.state.Contexts == old(lh.state.Contexts) && ndelivered >= 0
 
 //@ func (*WorkerLoop).onCommit
+//@   inv [O17.the-installed-term-is-the-term-of-the-current-height] (lh.filter.consensusMessagesHandler != nil ==> TermHeightOf(dyn(lh.filter.consensusMessagesHandler, *leanhelixterm.LeanHelixTerm)) == lh.state.height)
 //@   props C13 C03
 //@   requires lh.state != nil && lh.filter != nil && lh.filter.state == lh.state && lh.filter.futureCache != nil && lh.state.Contexts != nil
 //@   requires lastRoundHeight <= lh.state.height && ndelivered >= 0
@@ -112,6 +114,7 @@ package leanhelix
 //@   ensures [O13.state-moves-forward] lh.state.height >= old(lh.state.height)
 
 //@ func (*WorkerLoop).handleUpdateState
+//@   inv [O17.the-installed-term-is-the-term-of-the-current-height] (lh.filter.consensusMessagesHandler != nil ==> TermHeightOf(dyn(lh.filter.consensusMessagesHandler, *leanhelixterm.LeanHelixTerm)) == lh.state.height)
 //@   props C14 C13
 //@   requires receivedBlockWithProof != nil
 //@   requires lh.state != nil && lh.filter != nil && lh.filter.state == lh.state && lh.filter.futureCache != nil && lh.state.Contexts != nil
@@ -130,6 +133,7 @@ package leanhelix
 
 // ======================= worker loop (C12 C13 C16 C19), case-body mode =======================
 //@ func (*WorkerLoop).Run
+//@   requires [O17.the-installed-term-is-the-term-of-the-current-height] (lh.filter.consensusMessagesHandler != nil ==> TermHeightOf(dyn(lh.filter.consensusMessagesHandler, *leanhelixterm.LeanHelixTerm)) == lh.state.height)
 //@   props C12 C13 C14 C16 C19
 //@   safety iface
 //@   requires ctx != nil && lh.state != nil && lh.filter != nil && lh.filter.state == lh.state && lh.filter.futureCache != nil && lh.state.Contexts != nil
@@ -138,6 +142,7 @@ package leanhelix
 //@   modifies state.State.height, state.State.view, leanhelix.WorkerLoop.leanHelixTerm, M:S_state_HeightView:Int, ghost:lastRoundHeight, ghost:lastCommitHeight, rawmessagesfilter.RawMessageFilter.consensusMessagesHandler, rawmessagesfilter.RawMessageFilter.latestFutureBlockHeight, M:Int:Slice_Iface, ghost:ndelivered, ghost:delivered, ghost:disposed
 //@   loop for
 //@     invariant [frame] lh.state == old(lh.state) && lh.filter == old(lh.filter) && lh.filter.state == lh.state && lh.filter.futureCache == old(lh.filter.futureCache) && lh.state.Contexts == old(lh.state.Contexts)
+//@     invariant [O17.the-installed-term-is-the-term-of-the-current-height] (lh.filter.consensusMessagesHandler != nil ==> TermHeightOf(dyn(lh.filter.consensusMessagesHandler, *leanhelixterm.LeanHelixTerm)) == lh.state.height)
 //@     invariant [O13.heights-stay-ordered] lastRoundHeight <= lh.state.height && lastCommitHeight <= lh.state.height && ndelivered >= 0 && lh.state.height >= old(lh.state.height)
 //@     invariant [filter.cache] forall k int, i int :: has(lh.filter.futureCache, k) && 0 <= i && i < len(lh.filter.futureCache[k]) ==> lh.filter.futureCache[k][i].BlockHeight() == k && lh.filter.futureCache[k][i].InstanceId() == lh.filter.instanceId && lh.filter.futureCache[k][i].SenderMemberId() != lh.filter.myMemberId
 //@   ensures [O16.2.the-worker-returns-only-after-observing-shutdown] done_observed(ctx)
